@@ -23,7 +23,7 @@ def run(ctx):
         "correspondence: the controller lines (running?, destination, error, speed and length held) are compared op by op with the model; monitor Driver/C08.lean judges where the miners are directed against the chain truth reconstructed from the ops: only to a purchased, unexpired, decryptable contract's pool under the contract address as user name, never to a nil destination, engaged within the start-up delay plus a cycle when hashrate is available, and fulfilled at the speed and length of its purchase whatever terms updates arrive meanwhile",
         "assumed, not verified: the Solidity contracts' event vocabulary (contractPurchased, contractClosed, cipherTextUpdated, purchaseInfoUpdated) and that new terms of a running contract are held back until its close (futureTerms); ECIES itself (C18)",
     ]
-    ctx.assumptions += ["events are handled one at a time with quiescence in between; an event at the very second a contract ends is not judged"]
+    ctx.assumptions += ["events are handled one at a time with quiescence in between; an event at the very second a contract ends is not judged", "a node failure is a refused eth_call (the subscription itself stays up)"]
     L.prove(ctx)
     if not L.build_driver(ctx):
         return
@@ -96,7 +96,7 @@ def run(ctx):
         engaged += any(re.search(r"=c\d@", l) for l in lines)
     ctx.coverage.update({
         "evaluations": sum(ops.values()), "distinct_nontrivial": L.distinct_count(cases, lambda h, ls: any(re.search(r"=c\d@", l) for l in ls)),
-        "rule": "1..2 contracts sold by the node, each found at start-up available or purchased (5..400 s ago, 300 / 600 s long) with a payload that is a valid pool URL encrypted for the seller, empty, hex that does not decrypt, not hex, or a non-URL; then seeded purchases (120..600 s), closes, destination updates (all payload kinds), terms updates (length 120..600 s, speed 500..2000 GH/s; applied at once to an available contract, at the close of a running one), restarts and time advances of 1 s..310 s around the 10 s start delay, the 60 s cycle and the contract ends; 3..5 miners of 1000 GH/s. Non-trivial: a history in which a miner was directed to a contract; distinct by op list",
+        "rule": "1..2 contracts sold by the node, each found at start-up available or purchased (5..400 s ago, 300 / 600 s long) with a payload that is a valid pool URL encrypted for the seller, empty, hex that does not decrypt, not hex, or a non-URL; then seeded purchases (120..600 s), closes, destination updates (all payload kinds), node failures (the next eth_call refused) under a purchase / close / destination update / terms update, events without a handler (fundsClaimed), terms updates (length 120..600 s, speed 500..2000 GH/s; applied at once to an available contract, at the close of a running one), restarts and time advances of 1 s..310 s around the 10 s start delay, the 60 s cycle and the contract ends; 3..5 miners of 1000 GH/s. Non-trivial: a history in which a miner was directed to a contract; distinct by op list",
         "op_distribution": ops, "histories_with_engaged_miners": engaged, "ambiguous_histories_left_out": len(amb), "traces_validated_against_impl": len(cases) - len(amb),
     })
     ctx.samples += [{"case": h, "lines": lines[:20]} for h, lines in cases[:2]]
